@@ -66,7 +66,7 @@ func (c07) Budget(tier string) runner.Budget {
 
 func (c07) Describe() runner.Description {
 	return runner.Description{
-		Rule: "each plan: 2..6 honestly signed transactions (native with harness keys; EIP-155 wrapped Ethereum transactions for this chain id) and 10..60 deliveries, each either intact or tampered by exactly one mutation: substitution of one authenticated field (source, target, type, data, extra data, nonce, chain id, time, declared hash - with or without the tamperer recomputing the hash), signature r/s/v bit flips, signature spliced from another honest transaction, one bit flipped anywhere in the marshalled bytes (when it still parses); for wrapped transactions additionally outer-field substitutions, bit flips in the RLP payload, and inner re-encodings (to/nonce/value/gas/data/chain id changed under the original signature). Ingress paths: peer-to-peer TransactionGotMsg bytes, client write topic, queued write handler (both branches). Exact oracle at quiescence: every pending transaction equals an honestly signed one on all authenticated fields; every honest transaction delivered intact is pending. distinct_nontrivial = distinct (ingress path, mutation kind, tx form, rehash) tuples exercised.",
+		Rule: "each plan: 2..6 honestly signed transactions (native with harness keys; EIP-155 wrapped Ethereum transactions for this chain id) and 10..60 deliveries, each either intact or tampered by exactly one mutation: substitution of one authenticated field (source, target, type, data, extra data, nonce, chain id, time, declared hash - with or without the tamperer recomputing the hash), signature r/s/v bit flips, signature spliced from another honest transaction, one bit flipped anywhere in the marshalled bytes (when it still parses); for wrapped transactions additionally outer-field substitutions, bit flips in the RLP payload, and inner re-encodings (to/nonce/value/gas/data/chain id changed under the original signature; unrecoverable signatures and other-chain signatures declaring the zero address as sender). Ingress paths: peer-to-peer TransactionGotMsg bytes, client write topic, queued write handler (both branches). Exact oracle at quiescence: every pending transaction equals an honestly signed one on all authenticated fields; every honest transaction delivered intact is pending. distinct_nontrivial = distinct (ingress path, mutation kind, tx form, rehash) tuples exercised.",
 		Assumptions: []string{"unauthenticated fields (request id, socket id, sub-transactions) are not mutated"},
 		Real:        []string{"service.VerifyTransaction (hash, chain id, signature, EIP-155 path, compareTx)", "common secp256k1 sign/recover", "eth_tx (RLP, EIP-155 signer, ConvertTx)", "network receive path (envelope + transaction codecs)", "core game executor ingress handlers", "notify bus fan-out under the simulated scheduler"},
 		Stub:        []string{"websocket gate (bytes are injected at handleMessage)", "ConsensusHelper"},
@@ -75,7 +75,7 @@ func (c07) Describe() runner.Description {
 }
 
 var c07NativeMuts = []string{"src", "tgt", "type", "data", "extra", "nonce", "chain", "time", "hash", "sig-r", "sig-s", "sig-v", "sig-twin", "splice", "bitflip"}
-var c07EthMuts = []string{"src", "tgt", "type", "data", "nonce", "chain", "hash", "extra-bit", "in-to", "in-nonce", "in-value", "in-gas", "in-data", "in-chain", "bitflip"}
+var c07EthMuts = []string{"src", "tgt", "type", "data", "nonce", "chain", "hash", "extra-bit", "in-to", "in-nonce", "in-value", "in-gas", "in-data", "in-chain", "in-chain-zero", "in-garbage-zero", "in-src-zero", "bitflip"}
 
 func (c07) Gen(seed uint64, tier string) json.RawMessage {
 	r := simrt.NewRand(seed)
@@ -260,7 +260,7 @@ func c07Mutate(h c07Honest, all []c07Honest, d c07Delivery, chainID *big.Int) *t
 	case "extra-bit":
 		raw := common.FromHex(t.ExtraData)
 		t.ExtraData = common.ToHex(flipBit(raw, d.Arg))
-	case "in-to", "in-nonce", "in-value", "in-gas", "in-data", "in-chain":
+	case "in-to", "in-nonce", "in-value", "in-gas", "in-data", "in-chain", "in-chain-zero", "in-garbage-zero", "in-src-zero":
 		e := h.eth
 		to := common.Address{}
 		if e.To() != nil {
@@ -282,7 +282,7 @@ func c07Mutate(h c07Honest, all []c07Honest, d c07Delivery, chainID *big.Int) *t
 			gas += uint64(1 + d.Arg%1000)
 		case "in-data":
 			data = append(data, byte(d.Arg))
-		case "in-chain":
+		case "in-chain", "in-chain-zero":
 			cid = big.NewInt(int64(1 + d.Arg%9000))
 			if cid.Cmp(chainID) == 0 {
 				cid.Add(cid, big.NewInt(1))
@@ -296,6 +296,18 @@ func c07Mutate(h c07Honest, all []c07Honest, d c07Delivery, chainID *big.Int) *t
 		copy(sig[64-len(sb):64], sb)
 		rec := new(big.Int).Sub(v, new(big.Int).Add(big.NewInt(35), new(big.Int).Mul(chainID, big.NewInt(2))))
 		sig[64] = byte(rec.Uint64() & 1)
+		if d.Mut == "in-garbage-zero" {
+			// a signature from which no sender can be recovered (r = s = 0, or r beyond the group order)
+			for i := range sig[:64] {
+				sig[i] = 0
+			}
+			if d.Arg%2 == 1 {
+				for i := range sig[:32] {
+					sig[i] = 0xff
+				}
+				sig[63] = 1
+			}
+		}
 		signed, err := forged.WithSignature(eth_tx.NewEIP155Signer(cid), sig)
 		if err != nil {
 			return nil
@@ -304,10 +316,15 @@ func c07Mutate(h c07Honest, all []c07Honest, d c07Delivery, chainID *big.Int) *t
 		if err != nil {
 			return nil
 		}
-		// the tamperer claims the original sender
-		c := eth_tx.ConvertTx(signed, common.HexToAddress(h.tx.Source), enc)
+		// the tamperer claims the original sender - or, where recovery cannot succeed, the zero address
+		// (what a careless verifier holds in its "recovered sender" variable after a failed recovery)
+		claimed := common.HexToAddress(h.tx.Source)
+		if strings.HasSuffix(d.Mut, "-zero") {
+			claimed = common.Address{}
+		}
+		c := eth_tx.ConvertTx(signed, claimed, enc)
 		t = *c
-		if d.Mut == "in-chain" {
+		if strings.HasPrefix(d.Mut, "in-chain") {
 			t.ChainId = h.tx.ChainId // and this chain
 		}
 	default:
